@@ -59,6 +59,7 @@ class PipeProxy:
         self.run, self.j, self.conn = run, j, conn
         self.buf = []
         self.eof = None
+        self.no_eof = False
         self._closed = False
 
     # -- used by the implementation
@@ -127,8 +128,12 @@ class PipeProxy:
             return False
 
     def drain_to_eof(self):
-        while self.eof is None and not self._closed and self.pull(2.0):
+        # the worker is dead: everything it sent is readable at once, then EOF. If EOF does not show up (someone else
+        # still holds the other end open) wait for it once only, not on every later visit
+        while self.eof is None and not self._closed and self.pull(0.0 if self.no_eof else 1.0):
             pass
+        if self.eof is None:
+            self.no_eof = True
 
 
 class ProcProxy:
@@ -454,10 +459,11 @@ def run_case(case, progress=None):
 # supervised from OUTSIDE; an overrun is a Hang of the operation in flight, the whole group is killed
 # ------------------------------------------------------------------------------------------------
 MAGIC = "@@C13 "
-CASE_LIMIT = float(os.environ.get("C13_CASE_LIMIT", "30"))      # seconds of wall clock per case (normal: < 4 s)
+CASE_LIMIT = float(os.environ.get("C13_CASE_LIMIT", "20"))      # seconds of wall clock per case (normal: < 4 s)
 START_LIMIT = 180.0                                              # seconds for the runner to import the implementation
-MAX_HARD = 8                                                     # hard overruns after which the remaining cases are skipped
-BUDGET = {"quick": 420.0, "thorough": 2400.0}                    # seconds for all cases of a tier
+HANG_STOP = 12                                                   # cases with a Hang after which the remaining cases are skipped
+MAX_HARD = 6                                                     # hard overruns after which the remaining cases are skipped
+BUDGET = {"quick": 330.0, "thorough": 2400.0}                    # seconds for all cases of a tier
 
 
 def runner_main(path):
@@ -512,6 +518,9 @@ class Sandbox:
     def __init__(self, budget):
         self.t_end = time.monotonic() + budget
         self.hard = 0
+        self.hangs = 0
+        self.skipped = 0
+        self.skip_why = ""
         self.lock = threading.Lock()
         self.pgids = []
         self.notes = []
@@ -525,10 +534,14 @@ class Sandbox:
         d.mkdir(parents=True, exist_ok=True)
         attempt = 0
         while todo:
-            if time.monotonic() > self.t_end or self.hard >= MAX_HARD:
-                why = "wall-clock budget of the tier used up" if time.monotonic() > self.t_end else f"{self.hard} hard overruns"
+            if time.monotonic() > self.t_end or self.hard >= MAX_HARD or self.hangs >= HANG_STOP:
+                why = ("wall-clock budget of the tier used up" if time.monotonic() > self.t_end else
+                       f"{self.hard} hard overruns" if self.hard >= MAX_HARD else f"{self.hangs} cases already ended in a Hang")
                 for idx, _c in todo:
-                    results[idx] = {"trace": [], "hung": False, "orphans": [], "harness_error": f"case not run: {why}"}
+                    results[idx] = {"trace": [], "hung": False, "orphans": [], "harness_error": None, "skipped": why}
+                with self.lock:
+                    self.skipped += len(todo)
+                    self.skip_why = why
                 return
             attempt += 1
             f = d / f"runner_{tag}_{os.getpid()}_{attempt}.json"
@@ -550,6 +563,8 @@ class Sandbox:
                 left = min(deadline, self.t_end + 5) - time.monotonic()
                 if left <= 0:
                     overrun = True
+                    break
+                if self.hangs >= HANG_STOP and cur is None:
                     break
                 rl, _, _ = select.select([fd], [], [], min(left, 1.0))
                 if not rl:
@@ -579,6 +594,9 @@ class Sandbox:
                         recs.append(json.loads(payload)); pre, phase = None, "between"
                     elif tg == "E":
                         results[idx] = json.loads(payload)
+                        if results[idx].get("hung"):
+                            with self.lock:
+                                self.hangs += 1
                         done.add(idx)
                         cur, phase = None, "idle"
                         deadline = time.monotonic() + CASE_LIMIT
@@ -600,6 +618,7 @@ class Sandbox:
             if overrun and cur is not None:
                 with self.lock:
                     self.hard += 1
+                    self.hangs += 1
                 results[cur] = hard_obs(cases[cur], recs, pre, phase, CASE_LIMIT)
                 todo = [(i, c) for i, c in todo if i != cur]
             elif overrun:          # the runner never got as far as a case (import of the implementation blocked)
@@ -882,6 +901,8 @@ class C13(vlib.Driver):
                           "mode": "free", "stag": ds})
         for c in cases:
             c["ops"] = self.prune(c["ops"])
+        first = [c for c in cases if c.get("fam") in ("kill-pending", "staggered", "free")]
+        cases = first + [c for c in cases if c.get("fam") not in ("kill-pending", "staggered", "free")]
         self.prefetch(list(self.corpus()) + cases, tier)
         return cases
 
@@ -914,6 +935,10 @@ class C13(vlib.Driver):
         obs, survivors = sb.run([todo[k] for k in keys], max(1, min(int(os.environ.get("C13_JOBS", "3")), len(keys))))
         for k, o in zip(keys, obs):
             self.cache[k] = o if o is not None else {"trace": [], "hung": False, "orphans": [], "harness_error": "case lost by the sandbox"}
+        if sb.skipped:
+            self.skipped = getattr(self, "skipped", 0) + sb.skipped
+            self.skip_hangs = getattr(self, "skip_hangs", 0) + sb.hangs
+            self.notes = list(getattr(self, "notes", [])) + [f"{sb.skipped} case(s) not run: {sb.skip_why}"]
         if sb.hard:
             self.notes = list(getattr(self, "notes", [])) + [f"{sb.hard} case(s) overran the hard wall-clock limit of {CASE_LIMIT} s and were killed from outside (outcome Hang)"]
         if survivors:
@@ -931,12 +956,18 @@ class C13(vlib.Driver):
 
     def extra_static(self):
         sv = getattr(self, "survivors", [])
+        if getattr(self, "skipped", 0) and not getattr(self, "skip_hangs", 0):
+            # cases were dropped although nothing hung: the check could not do its work — fail closed
+            return [Violation("harness", "harness-error:budget", f"{self.skipped} cases were not run and no Hang explains it: {self.notes[-1:]}",
+                              None, None, found_input=False)]
         if sv:
             return [Violation("no-orphans", "orphan-processes", f"process groups {sv} still had members after their runner was stopped", None, None, found_input=False)]
         return []
 
     # ---------- model term
     def coq_term(self, case, obs):
+        if obs.get("skipped"):
+            return None
         if case.get("stag") is not None:
             # staggered answers: the timed poll loop of the model predicts the outcome of the first wait
             tr = obs["trace"]
@@ -974,6 +1005,8 @@ class C13(vlib.Driver):
     # ---------- oracle: the property stated directly on the run
     def oracle(self, case, obs):
         out = []
+        if obs.get("skipped"):
+            return out
         n = len(case["plans"])
         free = case.get("mode") == "free"
         if obs["orphans"]:
@@ -1145,6 +1178,8 @@ class C13(vlib.Driver):
         return hashlib.sha1(ckey(case).encode()).hexdigest()
 
     def nontrivial(self, case, obs):
+        if obs.get("skipped"):
+            return False
         if case.get("stag") is not None:
             return True
         for r in obs["trace"]:
@@ -1157,6 +1192,8 @@ class C13(vlib.Driver):
         return False
 
     def classify(self, case, obs):
+        if obs.get("skipped"):
+            return ["skipped"]
         labs = [f"fam={case.get('fam', 'corpus')}", f"workers={len(case['plans'])}"]
         for r in obs["trace"]:
             op = r["op"]
@@ -1171,11 +1208,20 @@ class C13(vlib.Driver):
         return labs
 
     def neighbours(self, case, rng):
+        # same case with one op dropped; run as one batch in the sandbox; bounded number of searches per check
+        self.nb_calls = getattr(self, "nb_calls", 0) + 1
+        if self.nb_calls > 5:
+            return
+        nbs = []
         for i in range(len(case["ops"])):
             c = dict(case)
             c["ops"] = case["ops"][:i] + case["ops"][i + 1:]
-            if c["ops"]:
-                yield c
+            if c["ops"] and c.get("stag") is None:
+                nbs.append(c)
+        nbs = nbs[:5]
+        self.prefetch(nbs)
+        for c in nbs:
+            yield c
 
 
 if __name__ == "__main__":
